@@ -14,6 +14,17 @@ from common import MachineryError, seed, workdir
 CFG = "SPECIFICATION Spec\nINVARIANT Verdict\nCHECK_DEADLOCK FALSE\n"
 
 
+# (declaration, expressions, explicit non-default loop orders given for ONE Einsum at a time, default loop order of every Einsum)
+CASCADES = [
+    ({"A": ["K", "M"], "B": ["K", "N"], "T": ["K", "M", "N"], "Z": ["M", "N"]}, ["T[k, m, n] = A[k, m] * B[k, n]", "Z[m, n] = T[k, m, n]"],
+     {"T": ["N", "K", "M"], "Z": ["N", "M", "K"]}, {"T": ["K", "M", "N"], "Z": ["M", "N", "K"]}),
+    ({"A": ["K", "M"], "B": ["N"], "T": ["M"], "Z": ["M", "N"]}, ["T[m] = A[k, m]", "Z[m, n] = T[m] * B[n]"],
+     {"T": ["K", "M"], "Z": ["N", "M"]}, {"T": ["M", "K"], "Z": ["M", "N"]}),
+    ({"A": ["M"], "B": ["M"], "C": ["M", "N"], "T": ["M"], "S": ["M", "N"], "Z": ["N"]}, ["T[m] = A[m] * B[m]", "S[m, n] = T[m] * C[m, n]", "Z[n] = S[m, n]"],
+     {"S": ["N", "M"], "Z": ["M", "N"]}, {"T": ["M"], "S": ["M", "N"], "Z": ["N", "M"]}),
+]
+
+
 def outcome(y):
     try:
         return hashlib.sha1(execpipe.compile_text(y).encode()).hexdigest()[:12]
@@ -48,6 +59,21 @@ def run(tier, rep):
                         ("rank-order written out", render.to_yaml(sp, loop="omit", rank_order="default")),
                         ("loop-order and rank-order written out", render.to_yaml(sp, loop="default", rank_order="default"))]
             keep.append((sp, variants))
+        # cascades: the default of one Einsum does not depend on what the mapping says about another (an explicit, non-default loop order /
+        # rank order / partitioning given for an EARLIER or LATER Einsum only); defaults of these fixed cascades by the rule of the property
+        for decl, exprs, given, dflts in CASCADES:
+            d = "einsum:\n  declaration:\n" + "".join("    %s: [%s]\n" % (t, ", ".join(r)) for t, r in decl.items()) + "  expressions:\n" + "".join("    - %s\n" % e for e in exprs)
+            for who in given:
+                rest = {o: lo for o, lo in dflts.items() if o != who}
+                lo_given = "    %s: [%s]\n" % (who, ", ".join(given[who]))
+                base = d + "mapping:\n  loop-order:\n" + lo_given
+                variants = [("everything omitted", base)]
+                for o, lo in rest.items():
+                    variants.append(("loop-order written out", base + "    %s: [%s]\n" % (o, ", ".join(lo))))
+                variants.append(("loop-order and rank-order written out", base + "".join("    %s: [%s]\n" % (o, ", ".join(lo)) for o, lo in rest.items())))
+                while len(variants) < 4:
+                    variants.append(variants[-1])
+                keep.append(({"dflt": dflts, "first": given}, variants[:4]))
         from concurrent.futures import ProcessPoolExecutor
         from common import ncores
         with ProcessPoolExecutor(max(2, ncores() - 2)) as ex:
